@@ -43,6 +43,9 @@ def chains(tmpdir):
         ("sample-seed", ["sample", "-k", "3", "-g", "a"], True, ["--seed", "9"], None),
         ("urand-seed", ["put", "$r=urandint(1,1000)"], True, ["--seed", "3"], None),
         ("filter-fail", ["put", "if (NR==13) {$z = asserting_null($x)}"], True, [], None),
+        # the two chains below are schedule-dependent by design of the early-exit optimisation (KNOWN_FINDINGS.txt)
+        ("put-print-then-head", ["put", "print \"p\".NR", "then", "head", "-n", "1"], True, [], "output-statement-upstream-of-early-exit"),
+        ("head-then-end-NR", ["head", "-n", "1", "then", "put", "-q", "end{print NR}"], True, [], "end-block-context-downstream-of-early-exit"),
     ]
 
 
@@ -127,7 +130,7 @@ def run(ctx):
                 obs = (st, hashlib.sha1(out).hexdigest())
                 if st == "hang" or classify_run(st, err) == "panic":
                     found = True
-                    ctx.violation({"class": chain[4] or ("hang:" + chain[0]) if st == "hang" else "panic:" + chain[0],
+                    ctx.violation({"class": ("hang:" + chain[0]) if st == "hang" else "panic:" + chain[0],
                                    "what": "run does not terminate" if st == "hang" else "panic", "chain": chain[1], "main_flags": chain[3] + cfg[0],
                                    "env": cfg[1], "sched_seed": cfg[2], "input_records": n if chain[2] else 0,
                                    "stderr_tail": err[-600:].decode("latin1"),
@@ -138,7 +141,7 @@ def run(ctx):
                     ctx.sample({"chain": " ".join(chain[1]), "config": cfg[0], "status": st, "stdout_sha1": obs[1], "stdout_bytes": len(out)})
                 elif obs != ref[0]:
                     found = True
-                    ctx.violation({"class": "output-depends-on-config:" + chain[0], "chain": chain[1], "main_flags": chain[3],
+                    ctx.violation({"class": chain[4] or ("output-depends-on-config:" + chain[0]), "chain": chain[1], "main_flags": chain[3],
                                    "config_a": [ref[1][0], ref[1][1], ref[1][2]], "config_b": [cfg[0], cfg[1], cfg[2]],
                                    "status_a": ref[0][0], "status_b": st, "stdout_a_head": ref[2][:300].decode("latin1"), "stdout_b_head": out[:300].decode("latin1"),
                                    "input_records": n})
